@@ -93,6 +93,10 @@ enum NetFault {
     /// the FINAL chunk carries `extra` more bytes than the message needs (zeros or 0x77): every
     /// chunk-level rule still holds, but the concatenation is no longer the packet that was sent
     GrowLast { extra: usize, zeros: bool },
+    /// the final chunk is split in two that BOTH carry its id: the first keeps the common chunk
+    /// size and loses the end-of-message flag, the second holds the rest with the flag - count
+    /// and bytes are those of a legal re-split, only the id is used twice
+    SplitLastSameId,
     /// one more chunk (id n, `len` zero or 0x77 bytes, end-of-message flag moved onto it) follows
     /// the real end of the message
     AppendChunk { len: usize, zeros: bool },
@@ -110,6 +114,7 @@ impl NetFault {
             NetFault::Resize { .. } => "resize",
             NetFault::Renumber { .. } => "renumber",
             NetFault::ShiftBoundary { .. } => "shift_boundary",
+            NetFault::SplitLastSameId => "split_last_reusing_its_id",
             NetFault::GrowLast { zeros: true, .. } => "grow_last_zeros",
             NetFault::GrowLast { .. } => "grow_last_garbage",
             NetFault::AppendChunk { zeros: true, .. } => "append_zero_chunk",
@@ -202,6 +207,21 @@ fn apply_fault(chunks: &mut Vec<ChunkSpec>, f: &NetFault) -> bool {
                 return false;
             }
             chunks[i].payload.resize(new_len, 0x77);
+            true
+        }
+        NetFault::SplitLastSameId => {
+            let Some(last) = (0..n).max_by_key(|&k| chunks[k].chunk_id) else { return false };
+            // common size of the non-final chunks (or 1 for a single-chunk message)
+            let common = if n >= 2 { chunks[(0..n).find(|&k| k != last).unwrap()].payload.len() } else { 1 };
+            if chunks[last].payload.len() <= common || common == 0 {
+                return false;
+            }
+            let mut second = chunks[last].clone();
+            second.payload = chunks[last].payload[common..].to_vec();
+            chunks[last].payload.truncate(common);
+            chunks[last].flags &= !1;
+            second.flags |= 1;
+            chunks.push(second);
             true
         }
         NetFault::GrowLast { extra, zeros } => {
@@ -465,7 +485,8 @@ impl Check for C04Check {
         };
         for _ in 0..nf {
             let i = r.usize(0, n - 1);
-            faults.push(match r.below(14) {
+            faults.push(match r.below(15) {
+                14 => NetFault::SplitLastSameId,
                 13 => NetFault::DupResent { i, field: r.below(3) as u8 },
                 11 => NetFault::GrowLast { extra: *r.pick(&[1usize, 2, 3, 4, 8, 40]), zeros: r.chance(2, 3) },
                 12 => NetFault::AppendChunk { len: *r.pick(&[1usize, 4, size, size]), zeros: r.chance(2, 3) },
@@ -487,14 +508,17 @@ impl Check for C04Check {
             });
         }
         let orders = if n + 1 <= 6 { Orders::All } else { Orders::Structured { shuffles: 24, seed: r.next_u64() } };
-        if index % 9973 == 5 {
+        if index % 2000 == 5 {
             // the end of the chunk-id range: a full-size packet (79 channels x 511 samples, > 64 KiB) cut
             // into 65535 one-byte chunks and a last chunk - fault-free, or with one seeded fault
             let nb = boards::pwb_boards().len();
             let pwb = PwbGen { board: r.usize(0, nb - 1), chip: r.below(4) as u8, channels: (1..=79).collect(), requested_samples: 511, sample_seed: r.next_u64(), kind: "valid".into() };
-            let faults = match r.below(4) {
+            let faults = match r.below(7) {
                 0 => vec![NetFault::Drop(r.usize(0, 65535))],
                 1 => vec![NetFault::DupResent { i: r.usize(0, 65535), field: 0 }],
+                2 => vec![NetFault::DupResent { i: 65535, field: r.below(3) as u8 }],
+                3 => vec![NetFault::Dup { i: 65535, alter: r.chance(1, 2) }],
+                4 => vec![NetFault::SplitLastSameId],
                 _ => vec![],
             };
             return serde_json::to_value(Scn { pwb, chunk_size: 1, faults, orders: Orders::Structured { shuffles: 2, seed: r.next_u64() }, all_ids: true }).unwrap();
